@@ -627,7 +627,10 @@ def gen_result_sequence(rng, idx):
             ops.append(dict(op="rgetattr", k=rng.choice(present) if present and rng.random() < 0.6 else k))
         elif r < 0.85:
             ops.append(dict(op="rdel", k=rng.choice(present) if present and rng.random() < 0.6 else k))
-        elif r < 0.92 and present:
+        elif r < 0.88:
+            # attribute ASSIGNMENT / deletion (scipy-style use): must not create, change or remove a field behind the key checks
+            ops.append(dict(op="rsetattr", k=(rng.choice(RESULT_UNKNOWN) if rng.random() < 0.6 else k), v=gen_value(rng)))
+        elif r < 0.94 and present:
             ops.append(dict(op="mutate_at", k=rng.choice(present), salt=rng.randint(1, 50)))
         elif present:
             ops.append(dict(op="set_from", k=k, k2=rng.choice(present)))
@@ -721,6 +724,24 @@ def run_result(ops, monitor=True):
             except Exception as ex:
                 res = f"(ERErr {cstr(exc_name(ex))})"
                 check(o["k"] not in c0 and exc_name(ex) == "KeyError", "result-keys", f"del r[{o['k']!r}] raised {exc_name(ex)}", t)
+        elif kind == "rsetattr":
+            # outside the Coq op alphabet: judged by the monitor only (the mapping must be exactly what it was)
+            try:
+                setattr(r, o["k"], build(o["v"]))
+            except Exception:
+                pass
+            c1, i1 = rsnapshot(r)
+            check(c1 == c0 and i1 == i0, "result-keys",
+                  f"r.{o['k']} = v (attribute assignment) changed the mapping: keys {sorted(set(c1) ^ set(c0))} / values {[k for k in c0 if k in c1 and c1[k] != c0[k]]}", t)
+            try:
+                copy.deepcopy(r)
+            except Exception as ex:
+                check(False, "result-keys", f"after r.{o['k']} = v the result can no longer be deep-copied ({exc_name(ex)})", t)
+            try:
+                object.__delattr__(r, o["k"])           # leave no instance attribute behind (it would shadow later reads)
+            except Exception:
+                pass
+            continue
         elif kind == "mutate_src":
             if o["n"] not in srcs or reg.tag.get(id(srcs[o["n"]])) is None:
                 continue
